@@ -52,6 +52,8 @@ C17split == /\ NoPublicPair(SplitParts(FALSE)) /\ AllFourCancel(SplitParts(FALSE
 C19masks == \A ln \in {1024, 2048, 3072} :
               /\ \A r \in MaskTable(ln) : MasksDivC(r) /\ Masks(r)
               /\ QuotientLeaks(ln) = {}
+              \* the range proofs about an attribute (256 bits), e (258 bits) and a commitment randomness (ln bits)
+              /\ \A lx \in {256, 258, ln} : Masks(RangeSquareResp(lx))
 C18toy ==
   \A p \in SafePrimes(Bound) : \A q \in SafePrimes(Bound) :
      p < q =>
